@@ -48,7 +48,7 @@ C["C02"] = dict(level="other",
  stubs=["zzMsgs (socket.Messages)", "zzBytesCodec (body codec)"],
  bounds={"calls": "2", "frames": "quick 2, thorough 3", "write faults": "at most 1", "modes": "default, directIO, client pipelining", "schedules": SCHED},
  outside=["Done channels without room", "more calls/frames than the bound", "schedules needing preemption inside a lock-free segment (thorough runs gran 1, P=1 on a smaller script)"],
- runs={"quick": [run("C02", labels=["exactly-once", "panic"]), run("CLI", labels=["each-call-signalled-once"]), run("C02r", P=1, gran=1, labels=["exactly-once", "outstanding-call-completes", "outstanding-call-fails", "no-goroutine-stuck", "panic"])],
+ runs={"quick": [run("C02", labels=["exactly-once", "panic"]), run("CLI", labels=["each-call-signalled-once"]), run("C19", labels=["sibling-gets-own-reply", "later-call-gets-own-reply", "callwithcontext-returns"]), run("C02r", P=1, gran=1, labels=["exactly-once", "outstanding-call-completes", "outstanding-call-fails", "no-goroutine-stuck", "panic"])],
        "thorough": [run("C02", params={"c02.F": 3}, labels=["exactly-once", "panic"], budget=1500), run("C02", P=1, gran=1, params={"c02.F": 1}, labels=["exactly-once", "panic"], budget=1500), run("C02r", P=2, gran=1, labels=["exactly-once", "outstanding-call-fails", "no-goroutine-stuck", "panic"], budget=900)]})
 
 C["C03"] = dict(level="other",
@@ -127,8 +127,8 @@ C["C10"] = dict(level="other",
  stubs=["zzMsgs", "stub listener/socket", "funcs model"],
  bounds={"streams": "1", "schedules": SCHED},
  outside=["sibling streams", "real netpoll event loop"],
- runs={"quick": [run("STRc", labels=["reader-unblocked", "blocked-read-returns-shutdown", "read-after-shutdown", "write-after-shutdown", "stream-close-returns", "unary-call-after-stream-close", "close-request-flags"]), run("STRs", labels=["handler-returns-after-stream-or-connection-end", "no-goroutine-left"]), run("STRc", P=1, gran=1, params={"str.N": 1, "str.badwrite": 0}, labels=["reader-unblocked", "blocked-read-returns-shutdown", "read-after-shutdown", "write-after-shutdown", "stream-close-returns"], budget=300), run("STRc", params={"str.readers": 2, "str.N": 1, "str.badwrite": 0}, labels=["reader-unblocked", "blocked-read-returns-shutdown", "open-fails-when-connection-ends-first"])],
-       "thorough": [run("STRc", P=1, gran=1, labels=["reader-unblocked", "blocked-read-returns-shutdown", "read-after-shutdown", "write-after-shutdown", "stream-close-returns"], budget=1500), run("STRs", P=1, gran=1, labels=["handler-returns-after-stream-or-connection-end", "no-goroutine-left"], budget=1500), run("STRc", params={"str.N": 3}, labels=["reader-unblocked", "blocked-read-returns-shutdown", "read-after-shutdown", "write-after-shutdown", "stream-close-returns", "unary-call-after-stream-close", "close-request-flags"]), run("STRs", params={"str.W": 2, "str.R": 2}, labels=["handler-returns-after-stream-or-connection-end", "no-goroutine-left"], budget=900)]})
+ runs={"quick": [run("STRc", labels=["reader-unblocked", "blocked-read-returns-shutdown", "read-after-shutdown", "write-after-shutdown", "stream-close-returns", "unary-call-after-stream-close", "close-request-flags"]), run("STRs", labels=["handler-returns-after-stream-or-connection-end", "handler-returns-after-stream-close", "no-goroutine-left"]), run("STRc", P=1, gran=1, params={"str.N": 1, "str.badwrite": 0}, labels=["reader-unblocked", "blocked-read-returns-shutdown", "read-after-shutdown", "write-after-shutdown", "stream-close-returns"], budget=300), run("STRc", params={"str.readers": 2, "str.N": 1, "str.badwrite": 0}, labels=["reader-unblocked", "blocked-read-returns-shutdown", "open-fails-when-connection-ends-first"])],
+       "thorough": [run("STRc", P=1, gran=1, labels=["reader-unblocked", "blocked-read-returns-shutdown", "read-after-shutdown", "write-after-shutdown", "stream-close-returns"], budget=1500), run("STRs", P=1, gran=1, labels=["handler-returns-after-stream-or-connection-end", "handler-returns-after-stream-close", "no-goroutine-left"], budget=1500), run("STRc", params={"str.N": 3}, labels=["reader-unblocked", "blocked-read-returns-shutdown", "read-after-shutdown", "write-after-shutdown", "stream-close-returns", "unary-call-after-stream-close", "close-request-flags"]), run("STRs", params={"str.W": 2, "str.R": 2}, labels=["handler-returns-after-stream-or-connection-end", "handler-returns-after-stream-close", "no-goroutine-left"], budget=900)]})
 
 C["C11"] = dict(level="other",
  explanation="The byte slices the library hands to user code are compared, after further traffic through the same (LIFO-reused) pools, with the symbolic bytes they had at hand-over: handler arguments (SRV harness, copy modes), replies (CLI harness; context buffer: C19 harness), stream messages and caller-supplied buffers in stream.ReadMessage (C11m: capacity smaller/equal/larger than the message; bytes beyond the reported length must keep their symbolic stale value). Aliasing is exact in the engine (slices share backing arrays), so a missing copy shows up as a failed equality.",
